@@ -102,8 +102,59 @@ def run_lead(ctx) -> RuleResult:
             break
         if analysed == 0:
             raise AnalysisError(f"{name}: glexsort walk not recognised")
+    _proxy_ranks(ctx, result)
     result.floor = 10
     return result
+
+
+def _proxy_ranks(ctx, result):
+    """sortable_proxy: coefficient values enter the integer proxy only as ranks (inside numpy.argsort)."""
+    modname = "numpoly.poly_function.sortable_proxy"
+    module = ctx.repo.module(modname)
+    func = ctx.repo.function(modname, "sortable_proxy")
+
+    def raw_coefficient(node, under_sort=False):
+        """First coefficient-valued sub-expression that is not inside an argsort/rank call, or None."""
+        if isinstance(node, ast.Call) and not is_S(node):
+            name = ctx.dotted(module, node.func) or ""
+            attr = node.func.attr if isinstance(node.func, ast.Attribute) else ""
+            if name in ("numpy.argsort", "numpy.lexsort", "scipy.stats.rankdata", "numpy.searchsorted") or (
+                    not name and attr == "argsort"):
+                return None
+        if isinstance(node, ast.Attribute) and node.attr in ("coefficients", "values") and not (
+                isinstance(getattr(node, "_p", None), ast.Call)):
+            return node
+        for child in ast.iter_child_nodes(node):
+            if isinstance(child, ast.Constant):
+                continue
+            found = raw_coefficient(child)
+            if found is not None:
+                return found
+        return None
+
+    n = 0
+    seen = set()
+    for path in ctx.paths(module, func, max_iter=1):
+        for step in path:
+            if step.kind != "stmt" or not isinstance(step.node, ast.Assign) or id(step.node) in seen:
+                continue
+            target = step.node.targets[0]
+            if not isinstance(target, ast.Subscript):
+                continue
+            seen.add(id(step.node))
+            value = step.expand(step.node.value)
+            n += 1
+            bad = raw_coefficient(value)
+            result.ob("sortable_proxy: coefficient values enter the integer proxy only as ranks (argsort)", bad is None,
+                      module.loc(step.orig), _txt(value)[:100])
+            if bad is not None:
+                result.add(Finding(
+                    "R-LEAD", module, "sortable_proxy", step.node,
+                    f"'{U(step.node)[:70]}' writes coefficient values themselves into the integer proxy: float coefficients are "
+                    f"truncated (0.2, 0.7 and 0.5 all become 0), so elements closer than 1 are ranked arbitrarily",
+                    construct="sortable_proxy: raw coefficients in the proxy"))
+    if n == 0:
+        raise AnalysisError("sortable_proxy: no store into the proxy recognised")
 
 
 def run_grad(ctx) -> RuleResult:
